@@ -11,7 +11,7 @@ CONSTANTS
   Dev_NdValIndex = FALSE
   Dev_CsIndex = FALSE
   Dev_SizeHint = FALSE
-  Dev_RsrcRecursion = TRUE
+  Dev_RsrcRecursion = FALSE
   Dev_FirstDepth = TRUE
   Dev_KidsDepth = TRUE
   FirstWalkIterative = FALSE
